@@ -243,10 +243,9 @@ def run(ctx, report: Report) -> None:
         r4.violation('css_parser._cached_css_compile lru_cache', pmod.where(cached),
                      f'_cached_css_compile is not decorated with lru_cache(maxsize=<positive int>) (maxsize={maxsize}): the '
                      f'pattern cache is unbounded or absent')
-    cache_key_rule(ctx, r4)
+    from .sem import compile_table
+    compile_table(ctx, r4, r4)
     cparams = [a.arg for a in cached.args.args]
-    p_pat, p_ns, p_flags = [a.arg for a in cfn.args.args[:3]]
-    p_custom = cfn.args.kwonlyargs[0].arg if cfn.args.kwonlyargs else 'custom'
     # the cached function reads nothing but its parameters and module-level constants / functions
     free = set()
     import builtins
@@ -272,36 +271,6 @@ def run(ctx, report: Report) -> None:
     r4.obligation(ok and ok2)
     if not (ok and ok2):
         r4.violation('purge cache_clear', pmod.where(purge), 'purge() no longer clears the _cached_css_compile cache')
-    # pass-through of compiled objects
-    iso = None
-    for n in ast.walk(cfn):
-        if isinstance(n, ast.If) and isinstance(n.test, ast.Call) and call_name(n.test) == 'isinstance':
-            iso = n
-    if iso is None:
-        raise AnalysisError('compile(): isinstance(pattern, SoupSieve) branch not found')
-    iso_atom = boolpaths.norm_atom(iso.test)[0]
-    for pname, assume, what in ((p_ns, {f'{p_ns} is None': False}, 'namespaces map (even an empty one)'),
-                                (p_custom, {f'{p_custom} is None': False}, 'custom map (even an empty one)'),
-                                (p_flags, {f'var:{p_flags}': True, p_flags: True}, 'non-zero flags')):
-        a = {iso_atom: True, f'{p_ns} is None': True, f'{p_custom} is None': True, f'var:{p_flags}': False, p_flags: False}
-        a.update(assume)
-        rets = boolpaths.return_values(cfn, a)
-        leaks = [n for v, n, st in rets]
-        r4.instance({'compile(compiled, ...)': f'extra {pname}', 'rejected': not leaks}, key='pt-' + pname)
-        r4.obligation(not leaks)
-        if leaks:
-            node = leaks[0] if leaks[0] is not None else iso
-            r4.violation(f'__init__.compile pass-through {pname}', imod.where(node),
-                         f'compile(compiled_selector, ...) can return although a {what} was given: the extra argument is '
-                         f'silently ignored instead of raising ValueError')
-    a = {iso_atom: True, f'{p_ns} is None': True, f'{p_custom} is None': True, f'var:{p_flags}': False, p_flags: False}
-    rets = boolpaths.return_values(cfn, a)
-    ok = bool(rets) and all(n is not None and n.value is not None and unparse(n.value) == p_pat for v, n, st in rets)
-    r4.instance({'compile(compiled)': 'returns the same object', 'ok': ok}, key='pt-same')
-    r4.obligation(ok)
-    if not ok:
-        r4.violation('__init__.compile pass-through identity', imod.where(iso),
-                     'compile(compiled_selector) does not return that same object on every path')
 
 
 def cache_key_rule(ctx, r4):
